@@ -78,6 +78,8 @@ Section SsUdp.
       Ok (h ++ r)
     end.
 
+  Definition lenN_ikeys (l : list bytes) : N := N.of_nat (List.length l).
+
   (* ---------------- encode ---------------- *)
   (* [rnd]: legacy = the salt (N bytes), XChaCha kinds = the 24-byte nonce, AES 2022 kinds = unused.
      [pad]: the padding bytes; its length is next_padding_length(item): 0 when the payload is non-empty,
@@ -96,8 +98,8 @@ Section SsUdp.
     if support_eih k then
       let key0 := match uc_ikeys cx with [] => uc_key cx | ik :: _ => ik end in
       let* hdr := aes_block_enc k key0 sidpid in
-      let eih_len := if require_eih then 16 else 0 in
-      (* only the first identity header stays outside the AEAD: text = &mut text[eih_len..] *)
+      let eih_len := if require_eih then 16 * lenN_ikeys (uc_ikeys cx) else 0 in
+      (* every identity header (one per identity key) stays outside the AEAD: text = &mut text[eih_len..] *)
       let* ck := udp_cipher_key k (uc_key cx) (us_csid s) in
       Ok (hdr ++ takeN eih_len eihs ++
           p_seal P (udp_cipher_id k) ck (dropN 4 sidpid) [] (dropN eih_len eihs ++ body))
